@@ -73,7 +73,7 @@ def main():
         else:
             names.append(a[i]); i += 1
     if not names:
-        names = sorted(os.listdir(os.path.join(V, "seeded")))
+        names = sorted(n for n in os.listdir(os.path.join(V, "seeded")) if os.path.isdir(os.path.join(V, "seeded", n)))
     workers = max(2, 16 // jobs)
     with ThreadPoolExecutor(jobs) as ex:
         for r in ex.map(lambda n: one(n, tier, workers), names):
